@@ -602,6 +602,7 @@ static Subtree ts_parser__lex(
     ts_lexer_start(&self->lexer);
     found_token = ts_parser__call_main_lex_fn(self, lex_mode);
     ts_lexer_finish(&self->lexer, &lookahead_end_byte);
+    if (self->lexer.did_get_column) called_get_column = true;
     if (found_token) break;
 
     if (!error_mode) {
